@@ -217,7 +217,13 @@ def dict_method(E, recv, c, name, args, kwargs, fr, node):
             raise Unsupported("dict.get of container values")
         return SV(cellv, TOpt(ty.val))
     if name == "keys":
-        return E.new_symlist(SV(E.dkeys(d), TList(ty.key)))
+        ks = E.dkeys(d)
+        if not E.spec_mode:
+            # B4: the key sequence of a dict lists present keys (the same fact the dict iteration gives per element)
+            i = z3.Int("dk_i")
+            E.assume(z3.ForAll([i], z3.Implies(z3.And(0 <= i, i < z3.Length(ks)), z3.Not(s.is_none(z3.Select(d.t, ks[i])))),
+                               patterns=[nth_pat(ks, i)]))
+        return E.new_symlist(SV(ks, TList(ty.key)))
     if name == "values":
         return E.alloc(("dictvalues", d))
     if name == "items":
@@ -237,6 +243,8 @@ def dict_method(E, recv, c, name, args, kwargs, fr, node):
         return SV(z3.Length(E.dkeys(d)), TInt)
     if name == "__contains__":
         return SV(contains_term(E, args[0], d, node, fr), TBool)
+    if name in ("close", "sync") and E.catches("AttributeError"):
+        raise PyRaise("AttributeError", line)     # a plain dict has no such method
     raise Unsupported("dict.%s" % name)
 
 
